@@ -88,6 +88,7 @@ func remoteRegistry(ctx context.Context, r *lib.Run) {
 			panic(err)
 		}
 		rr.PlainHTTP = true
+		rr.Client = reg.Client()
 		repo := registry.NewRepository(rr)
 		var subjects []ocispec.Descriptor
 		for i := 0; i < 2; i++ {
